@@ -86,7 +86,7 @@ fn op_mentions(op: &Op, n: u32) -> bool {
 fn sub_exprs(e: &Expr) -> Vec<Expr> {
     match e {
         Expr::Const(_) | Expr::Read(_) => vec![],
-        Expr::Idx(a, _) | Expr::Mul(a, _) | Expr::Mod(a, _) => vec![(**a).clone()],
+        Expr::Idx(a, _) | Expr::Mul(a, _) | Expr::Mod(a, _) | Expr::NonZero(a) => vec![(**a).clone()],
         Expr::Race(n, a) => vec![(**a).clone(), Expr::Read(*n)],
         Expr::Add(a, b) | Expr::Min(a, b) | Expr::Cat(a, b) => {
             vec![(**a).clone(), (**b).clone()]
